@@ -144,6 +144,8 @@ svalue_t* call_efun_callback (function_to_call_t * ftc, int n) {
 }
 
 static svalue_t global_lvalue_byte = { .type = T_LVALUE_BYTE };
+/* subtype of global_lvalue_byte: non-zero when the byte lives in a buffer (which may contain 0 bytes) */
+#define LVALUE_BYTE_IN_STRING() (global_lvalue_byte.subtype == 0)
 
 /**
  * Compute the address of an array element.
@@ -187,6 +189,7 @@ static void push_indexed_lvalue (int reverse) {
             sp->type = T_LVALUE;
             sp->u.lvalue = &global_lvalue_byte;
             global_lvalue_byte.u.lvalue_byte = (unsigned char *) &lv->u.string[ind];
+            global_lvalue_byte.subtype = 0;
             break;
           }
 
@@ -199,6 +202,7 @@ static void push_indexed_lvalue (int reverse) {
             sp->type = T_LVALUE;
             sp->u.lvalue = &global_lvalue_byte;
             global_lvalue_byte.u.lvalue_byte = &lv->u.buf->item[ind];
+            global_lvalue_byte.subtype = 1;
             break;
           }
 
@@ -262,6 +266,7 @@ static void push_indexed_lvalue (int reverse) {
             (--sp)->type = T_LVALUE;
             sp->u.lvalue = &global_lvalue_byte;
             global_lvalue_byte.u.lvalue_byte = (sp + 1)->u.buf->item + ind;
+            global_lvalue_byte.subtype = 1;
             break;
           }
 
@@ -844,7 +849,7 @@ void eval_instruction (const char *p) {
               lval->u.real++;
               break;
             case T_LVALUE_BYTE:
-              if (*global_lvalue_byte.u.lvalue_byte == (unsigned char) 255)
+              if (*global_lvalue_byte.u.lvalue_byte == (unsigned char) 255 && LVALUE_BYTE_IN_STRING ())
                 error ("*Strings cannot contain 0 bytes.");
               ++*global_lvalue_byte.u.lvalue_byte;
               break;
@@ -1398,7 +1403,7 @@ void eval_instruction (const char *p) {
 
                 c = *global_lvalue_byte.u.lvalue_byte + (char)sp->u.number;
 
-                if (c == '\0')
+                if (c == '\0' && LVALUE_BYTE_IN_STRING ())
                   error ("*Strings cannot contain 0 bytes.");
                 *global_lvalue_byte.u.lvalue_byte = c;
               }
@@ -1702,7 +1707,7 @@ void eval_instruction (const char *p) {
                 else
                   {
                     c = ((sp - 1)->u.number & 0xff);
-                    if (c == '\0')
+                    if (c == '\0' && LVALUE_BYTE_IN_STRING ())
                       error ("*Strings cannot contain NUL character.");
                     *global_lvalue_byte.u.lvalue_byte = c;
                   }
@@ -1746,7 +1751,7 @@ void eval_instruction (const char *p) {
                     else
                       {
                         char c = (sp--)->u.number & 0xff;
-                        if (c == '\0')
+                        if (c == '\0' && LVALUE_BYTE_IN_STRING ())
                           error ("*Strings cannot contain 0 bytes.");
                         *global_lvalue_byte.u.lvalue_byte = c;
                       }
@@ -1859,7 +1864,7 @@ void eval_instruction (const char *p) {
               sp->u.real = --(lval->u.real);
               break;
             case T_LVALUE_BYTE:
-              if (*global_lvalue_byte.u.lvalue_byte == '\x1')
+              if (*global_lvalue_byte.u.lvalue_byte == '\x1' && LVALUE_BYTE_IN_STRING ())
                 error ("*Strings cannot contain 0 bytes.");
               sp->type = T_NUMBER;
               sp->subtype = 0;
@@ -1881,7 +1886,7 @@ void eval_instruction (const char *p) {
               lval->u.real--;
               break;
             case T_LVALUE_BYTE:
-              if (*global_lvalue_byte.u.lvalue_byte == '\x1')
+              if (*global_lvalue_byte.u.lvalue_byte == '\x1' && LVALUE_BYTE_IN_STRING ())
                 error ("*Strings cannot contain NUL char.");
               --(*global_lvalue_byte.u.lvalue_byte);
               break;
@@ -1989,7 +1994,7 @@ void eval_instruction (const char *p) {
               sp->u.real = ++lval->u.real;
               break;
             case T_LVALUE_BYTE:
-              if (*global_lvalue_byte.u.lvalue_byte == (unsigned char) 255)
+              if (*global_lvalue_byte.u.lvalue_byte == (unsigned char) 255 && LVALUE_BYTE_IN_STRING ())
                 error ("*Strings cannot contain NUL char.");
               sp->type = T_NUMBER;
               sp->subtype = 0;
@@ -2334,7 +2339,7 @@ void eval_instruction (const char *p) {
               break;
             case T_LVALUE_BYTE:
               sp->type = T_NUMBER;
-              if (*global_lvalue_byte.u.lvalue_byte == '\x1')
+              if (*global_lvalue_byte.u.lvalue_byte == '\x1' && LVALUE_BYTE_IN_STRING ())
                 error ("*Strings cannot contain NUL char.");
               sp->u.number = (*global_lvalue_byte.u.lvalue_byte)--;
               break;
@@ -2357,7 +2362,7 @@ void eval_instruction (const char *p) {
               sp->u.real = lval->u.real++;
               break;
             case T_LVALUE_BYTE:
-              if (*global_lvalue_byte.u.lvalue_byte == (unsigned char) 255)
+              if (*global_lvalue_byte.u.lvalue_byte == (unsigned char) 255 && LVALUE_BYTE_IN_STRING ())
                 error ("*Strings cannot contain NUL char.");
               sp->type = T_NUMBER;
               sp->u.number = (*global_lvalue_byte.u.lvalue_byte)++;
